@@ -39,6 +39,18 @@ CLAIMS = {
  "C15": ("other", "DESIGN.md §3 C15", "exhaustive constant-table evaluation of the registry against an independent RFC 6287 name parser; table identity; parser token tables; dominance of Validate()==nil",
    "All 45 registry entries are evaluated from the syntax tree and compared field by field with what an independent parser of the name says (exhaustive for the advertised names); the four lookup functions read that one never-written table; NewRawSuite reports the given string as name; the parser's token tables, unit scaling without narrowing, validate-before-return, whole-token version equality and exactly three parts are checked; no memoisation on the path.",
    "The parser's behaviour over the whole string language (Split/Atoi semantics) is not decided. 'T1' without unit means seconds (frozen exception)."),
+ "C05": ("other", "DESIGN.md §3 C05", "message-layout linearisation from gated SSA (append chain), path enumeration of the pad helper, shared RFC 4226 composition rules, dominance of the validators, decision tables for the suite contract",
+   "The single HMAC Write's argument is linearised and must be exactly suite string, 0x00, then C(8) Q(128) P S(128) T(8) each under its own flag from one Config(); the pad helper returns exactly width bytes with right zero padding on all paths; the tail is the C01 composition with the suite's hash/digits (modulus 10^4..10^10); both validators gate all work and the suite contract (digits 4..10, hash 0..2, Config identity) is proved; each input field is read only under its flag.",
+   "Trusted: crypto/hmac and hashes. Numerical equality rests on the composition; parser-produced names are C15's subject."),
+ "C06": ("other", "DESIGN.md §3 C06", "origin terms bound through calls and closures: same derivation / same arguments; branch-condition analysis for error-before-compare and verdict pairing",
+   "Generation and validation reach exactly one call of the same derivation with (DecodeSecret(secret), the caller's suite, the caller's input); the constant-time comparison is whole-string against that call's result, after a length test against Config().Digits of that suite, reached only when the derivation returned no error; every return on the path is a well-formed verdict. Equivalence then follows from sharing, with no numerical argument.",
+   "Trusted: go/ssa. The derivation's value is C05's subject."),
+ "C07": ("other", "DESIGN.md §3 C07", "origin-term pipeline matching of DecodeSecret + call-tree walk binding the HMAC key of every entry point",
+   "DecodeSecret is DecodeString of base32.StdEncoding over ToUpper / TrimSpace / right re-padding computed after trimming (two accepted idioms, anything else undecided); on every exported entry point and every JS-registered function the key of every hmac.New reached is DecodeSecret(…)#0, and the decode error is returned and gates further work.",
+   "RFC 4648 decoding and Unicode case/space mapping are the standard library's; the structural rule cannot see e.g. that ToUpper maps U+017F to 'S' (recorded as a limitation)."),
+ "C08": ("other", "DESIGN.md §3 C08", "use-def confinement of the secret buffer, resolved callee identity, exhaustive path evaluation over the 256 hash values",
+   "The one buffer is filled whole by crypto/rand.Read with the error checked, used for nothing but that fill and the whole-buffer unpadded StdEncoding encode, sized 20/32/64 for the three hashes and refused with an error for every other of the 256 values (all paths enumerated), with no state kept between calls.",
+   "Quality of the OS random source is not decided. Trusted: crypto/rand.Read fills fully or fails."),
 }
 
 PENDING_REASON = "not claimed at this commit: the rule set planned in DESIGN.md §3 is not implemented yet (no check is registered, so nothing is asserted)"
